@@ -344,7 +344,7 @@ func c09Mutate(rng *Rng, ts []efp.Token) []efp.Token {
 // kept so that a regression is reproduced deterministically)
 var c09EvWitnesses = []string{"({1}+SUM(2))", "'*'(1 2+3)", "SUM(1 '*'(2+3))", "'-'(1 2-3)", "'='(1 2=3)", "({1;2}+SUM(2)+(3))",
 	"1)", "SUM(1))", ")", "{1}+SUM(2)", "SUM((1,2))", "SUM(,)", "{SUM(1)}", "SUM({1}{2})", "1%%", "--1", "SUM(A1:A2,A1)", "SUM(A1:A2 A1)",
-	"(({1}))", "SUM(({1}))", "({1})+SUM(1,(2))", "'*'((1 2)+3)", "SUM('*'(1,2) 3+4)"}
+	"1+", "SUM(1+)", "1*", "-", "(1+)", "1&", "SUM(1,)", "SUM(+)", "1<", "(({1}))", "SUM(({1}))", "({1})+SUM(1,(2))", "'*'((1 2)+3)", "SUM('*'(1,2) 3+4)"}
 
 func c09EvStream(r *Run, rng *Rng) {
 	f := c09EvFile()
@@ -471,34 +471,51 @@ func c09ParseCell(w string) (c09Cell, bool) {
 
 var c09ItRe = regexp.MustCompile(`Sheet1!A(\d+)=(\d+)`)
 
-func c09Cyc(r *Run, M, entry int, cells []c09Cell, class string) {
+func c09CycOp(M, entry int, cells []c09Cell) string {
 	parts := []string{"cyc", strconv.Itoa(M), strconv.Itoa(entry)}
 	for _, c := range cells {
 		parts = append(parts, c.enc())
 	}
-	op := strings.Join(parts, " ")
+	return strings.Join(parts, " ")
+}
+
+func c09ParseCyc(w []string) (M, entry int, cells []c09Cell, ok bool) {
+	if len(w) < 4 || w[0] != "cyc" {
+		return
+	}
+	M, e1 := strconv.Atoi(w[1])
+	entry, e2 := strconv.Atoi(w[2])
+	ok = e1 == nil && e2 == nil
+	for _, d := range w[3:] {
+		c, k := c09ParseCell(d)
+		ok = ok && k
+		cells = append(cells, c)
+	}
+	ok = ok && entry >= 0 && entry < len(cells) && M >= 0
+	return
+}
+
+// c09CycEval runs one reference graph on the real code (worker side: a non-terminating
+// recursion overflows the stack and kills only the worker).  Result: "<transcript result>|<flags>"
+// with flags det/pure/maxIt/calls/nF.
+func c09CycEval(M, entry int, cells []c09Cell) string {
 	f := xl.NewFile(xl.Options{MaxCalcIterations: uint(M)})
 	defer f.Close()
-	nF, edges := 0, 0
+	nF := 0
 	for i, c := range cells {
 		if c.leaf {
 			must(f.SetCellValue("Sheet1", c09CellName(i), c.c))
 		} else {
 			must(f.SetCellFormula("Sheet1", c09CellName(i), c.formula()))
 			nF++
-			edges += len(c.refs)
-			if c.isRng {
-				edges += c.hi - c.lo + 1
-			}
 		}
 	}
 	before := xl.VerifDumpSheet(f, "Sheet1")
-	res, res2 := "", ""
 	maxIt, calls := 0, 0
 	eval := func() (out string) {
 		defer func() {
 			if p := recover(); p != nil {
-				out = "PANIC " + c09PanicSite(p)
+				out = "PANIC@" + c09PanicSite(p)
 			}
 		}()
 		if cells[entry].leaf {
@@ -540,19 +557,52 @@ func c09Cyc(r *Run, M, entry int, cells []c09Cell, class string) {
 		}
 		return fmt.Sprintf("ok %s it=%s calls=%d", val, strings.Join(items, ","), calls)
 	}
-	res = eval()
-	res2 = eval()
+	res := eval()
+	res2 := eval()
 	after := xl.VerifDumpSheet(f, "Sheet1")
+	det, pure := 1, 1
+	if res != res2 {
+		det = 0
+	}
+	if before != after {
+		pure = 0
+	}
+	return fmt.Sprintf("%s|%d|%d|%d|%d|%d", res, det, pure, maxIt, calls, nF)
+}
+
+// c09CycRecord writes the transcript line and applies the oracles (parent side).
+func c09CycRecord(r *Run, op, class, out string) {
+	w := strings.Fields(op)
+	M, _, cells, _ := c09ParseCyc(w)
+	nF, edges := 0, 0
+	for _, c := range cells {
+		if !c.leaf {
+			nF++
+			edges += len(c.refs)
+			if c.isRng {
+				edges += c.hi - c.lo + 1
+			}
+		}
+	}
+	p := strings.Split(out, "|")
+	res := p[0]
 	ln := r.Op(op, res)
 	r.Case(op, edges > 0 && nF > 1)
 	r.Stat("cyc:" + class)
+	if len(p) != 6 {
+		// the worker died or hung on this graph
+		r.Fail("cyc:"+strings.Fields(res + " ?")[0], "CalcCellValue does not return on a reference graph: "+res, ln, op)
+		return
+	}
+	maxIt, _ := strconv.Atoi(p[3])
+	calls, _ := strconv.Atoi(p[4])
 	if strings.HasPrefix(res, "PANIC") {
 		r.Fail("cyc:"+res, "CalcCellValue panics on a reference graph", ln, op)
 	}
-	if res != res2 {
-		r.Fail("cyc:nondeterministic", fmt.Sprintf("evaluating twice differs: %s vs %s", res, res2), ln, op)
+	if p[1] != "1" {
+		r.Fail("cyc:nondeterministic", "evaluating twice gives different answers", ln, op)
 	}
-	if before != after {
+	if p[2] != "1" {
 		r.Fail("cyc:impure", "workbook dump differs after evaluation", ln, op)
 	}
 	if maxIt > M+1 {
@@ -561,6 +611,31 @@ func c09Cyc(r *Run, M, entry int, cells []c09Cell, class string) {
 	if calls > (M+1)*nF+1 {
 		r.Fail("cyc:calls-exceed-bound", fmt.Sprintf("%d calcCellValue calls, bound (M+1)*F+1 = %d", calls, (M+1)*nF+1), ln, op)
 	}
+}
+
+type c09CycJob struct{ op, class string }
+
+var c09CycJobs []c09CycJob
+
+func c09Cyc(r *Run, M, entry int, cells []c09Cell, class string) {
+	c09CycJobs = append(c09CycJobs, c09CycJob{c09CycOp(M, entry, cells), class})
+}
+
+// c09CycFlush evaluates the collected graphs on the worker pool and records them in order.
+func c09CycFlush(r *Run) {
+	jobs := make([]c09Job, len(c09CycJobs))
+	for i, c := range c09CycJobs {
+		jobs[i] = c09Job{Op: c.op, Formula: c.op, Class: "cyc"}
+	}
+	nw := runtime.NumCPU()
+	if nw > 16 {
+		nw = 16
+	}
+	outs := c09RunRaw(jobs, nw, 25)
+	for i, c := range c09CycJobs {
+		c09CycRecord(r, c.op, c.class, outs[i])
+	}
+	c09CycJobs = nil
 }
 
 func c09CycStream(r *Run, rng *Rng) {
@@ -675,6 +750,7 @@ func runC09(r *Run, rng *Rng, replay string) {
 	}
 	c09EvStream(r, rng)
 	c09CycStream(r, rng)
+	c09CycFlush(r)
 	c09WorkerStreams(r, rng)
 	for _, s := range r.opsSample(6) {
 		r.Sample(s)
@@ -697,19 +773,7 @@ func c09Replay(r *Run, path string) {
 				c09Ev(r, f, ts, "replay", "replay")
 			}
 		case "cyc":
-			if len(w) < 4 {
-				continue
-			}
-			M, _ := strconv.Atoi(w[1])
-			e, _ := strconv.Atoi(w[2])
-			var cells []c09Cell
-			ok := true
-			for _, d := range w[3:] {
-				c, k := c09ParseCell(d)
-				ok = ok && k
-				cells = append(cells, c)
-			}
-			if ok && e < len(cells) {
+			if M, e, cells, ok := c09ParseCyc(w); ok {
 				c09Cyc(r, M, e, cells, "replay")
 			}
 		case "fn", "txt":
@@ -718,6 +782,7 @@ func c09Replay(r *Run, path string) {
 			}
 		}
 	}
+	c09CycFlush(r)
 	if len(jobs) > 0 {
 		c09RunJobs(r, jobs, 1)
 	}
